@@ -324,7 +324,8 @@ GoRtVerdict(c) ==
       \* documented representation limits of a transport
       limited == \/ x.via = "json" /\ HasNonFinite(fv)
                  \/ x.via = "ubjson" /\ HasBigUint(fv)
-      R == IF x.via = "json" THEN {"f2i", "f32as64"} ELSE {} IN
+      \* JSON's documented representation changes: one number type (-0 = 0), invalid UTF-8 -> U+FFFD
+      R == IF x.via = "json" THEN {"f2i", "f32as64", "fffd"} ELSE {} IN
   IF c.outcome # "ok" THEN <<"C11:outcome:" \o c.outcome>>
   ELSE IF x.stage # "" THEN (IF refused \/ limited THEN <<>>
                             ELSE <<"C11:round trip failed at " \o x.stage \o " (" \o x.err \o ")">>)
